@@ -271,7 +271,7 @@ class NetAddr():
         for e in elements:
             if isinstance(e[0], str):
                 elist.append((self._calc_msg_dgram_size(e), e))
-            elif isinstance(e[0], (int, float)):  # bundle
+            elif isinstance(e[0], (int, float, type(None))):  # bundle
                 elist.append((self._calc_bndl_dgram_size(e[1:]), e))
             else:
                 raise ValueError(
@@ -299,7 +299,7 @@ class NetAddr():
             res += 4  # Element size bytes.
             if isinstance(e[0], str):  # message
                 res += self._calc_msg_dgram_size(e)
-            elif isinstance(e[0], (int, float)):  # bundle
+            elif isinstance(e[0], (int, float, type(None))):  # bundle
                 res += self._calc_bndl_dgram_size(e[1:])
             else:
                 raise ValueError(
@@ -308,7 +308,7 @@ class NetAddr():
         return res
 
     def _calc_msg_dgram_size(self, msg):
-        res = self._strpad4(len(bytes(msg[0], 'ascii')))  # Address.
+        res = self._strpad4(len(msg[0].encode('utf-8')))  # Address.
         res += self._strpad4(len(msg[1:]) + 1)  # Type tag string.
         for val in msg[1:]:
             if isinstance(val, str):
@@ -317,8 +317,13 @@ class NetAddr():
                 size = memoryview(val).nbytes
                 res += 4 + size + (-size & 3)  # Size bytes + data pad4.
             elif isinstance(val, list):
-                # Arrays are messages converted to blobs.
-                res += self._calc_msg_dgram_size(val) + 4  # Blob size bytes.
+                # Lists are messages or bundles converted to blobs.
+                if not val:
+                    res += 4  # Sent as int 0.
+                elif isinstance(val[0], str):
+                    res += self._calc_msg_dgram_size(val) + 4  # Blob size bytes.
+                else:
+                    res += self._calc_bndl_dgram_size(val[1:]) + 4
             else:
                 res += 4  # Everything else (sent by sc3, no doubles).
         return res
